@@ -183,7 +183,7 @@ pub fn c10() -> Check {
     Check {
         id: "C10",
         level: "exploration",
-        rule: "header incarnations and update sections of every outgoing datagram checked against a fold of the self-directed updates presented to the instance; reaction to Down(self)/TurnUndead checked. Non-trivial: >= 20 datagrams.",
+        rule: "header incarnations and update sections of every outgoing datagram checked against a fold of the self-directed updates presented to the instance; reaction to Down(self)/TurnUndead checked. Non-trivial: >= 20 datagrams. 'tie': stand-alone identity whose renew() saturates the generation while a nonce changes (a renewed identity that differs but does not win), bundled Postcard codec: Rejoin only with an identity that differs and wins, otherwise Defunct and silence.",
         assumptions: ASSUME,
         required: &["headers_checked"],
         workloads: vec![
@@ -221,7 +221,7 @@ pub fn c12() -> Check {
     Check {
         id: "C12",
         level: "exploration",
-        rule: "probe-round shadow (target, number, helpers asked, evidence accepted) rebuilt from sent/received datagrams and timers; verdict at the next probe timer; responder rules checked on every accepted datagram. Non-trivial: >= 10 timer deliveries.",
+        rule: "probe-round shadow (target, number, helpers asked, evidence accepted) rebuilt from sent/received datagrams and timers; verdict at the next probe timer; responder rules checked on every accepted datagram. Non-trivial: >= 10 timer deliveries. A probe timer with no completed round to judge must not schedule a suspicion timeout nor turn anybody Suspect.",
         assumptions: ASSUME,
         required: &["rounds_started", "rounds_with_evidence", "rounds_without_evidence", "pingreqs_sent"],
         workloads: vec![
@@ -276,7 +276,7 @@ pub fn c16() -> Check {
     Check {
         id: "C16",
         level: "exploration",
-        rule: "instrumented BroadcastHandler (unique item tags, three invalidation relations, random recipient predicates); shadow backlog of accepted items; every datagram tail accounted; receiver-side handler log compared with the items sent; broadcast() op-level rules. Non-trivial: >= 20 datagrams.",
+        rule: "instrumented BroadcastHandler (unique item tags, three invalidation relations, random recipient predicates); shadow backlog of accepted items; every datagram tail accounted; receiver-side handler log compared with the items sent; broadcast() op-level rules. Non-trivial: >= 20 datagrams. A datagram that does not parse while a pending item lost a transmission in that call is a violation. Half of the handlers accept empty items.",
         assumptions: ASSUME,
         required: &["custom_items_sent", "custom_items_received", "broadcast_calls"],
         workloads: vec![
